@@ -434,6 +434,84 @@ theorem scaled_check_iff (detK : Mat3 ℝ → ℝ) (rtol atol : ℝ) (Rs : List 
       intro Q hQ; obtain ⟨R, hR, rfl⟩ := List.mem_map.mp hQ; exact hall R hR)]
     simp only [List.map_map, List.zip_eq_zipWith, List.zipWith_map, List.zipWith_self, Function.comp]
 
+/-! ## 5. batched = item-wise (no batch-level shortcut in the model of the code) -/
+
+/-- **batched = item-wise** (`mat2SO3`): the batch call returns iff every item converted alone returns, and then the
+batch result is the list of the item results -/
+theorem mat2SO3Batch_itemwise (detK : Mat3 ℝ → ℝ) (check : Bool) (rtol atol : ℝ) (Rs : List (Mat3 ℝ)) :
+    mat2SO3Batch detK check rtol atol Rs = .ok (Rs.map (mat2SO3Raw atol)) ↔
+      ∀ R ∈ Rs, mat2SO3 detK check rtol atol R = .ok (mat2SO3Raw atol R) := by
+  cases check with
+  | false => simp [mat2SO3Batch, mat2SO3]
+  | true =>
+    rw [check_batch_iff]
+    constructor
+    · intro h R hR; exact (mat2SO3_ok_iff detK rtol atol R _).mpr ⟨(h R hR).1, (h R hR).2, rfl⟩
+    · intro h R hR
+      have := (mat2SO3_ok_iff detK rtol atol R _).mp (h R hR)
+      exact ⟨this.1, this.2.1⟩
+
+/-- … and the batch call raises iff some item raises when converted alone (no batch-level `any`/`all` shortcut) -/
+theorem mat2SO3Batch_raises_iff (detK : Mat3 ℝ → ℝ) (rtol atol : ℝ) (Rs : List (Mat3 ℝ)) :
+    (∃ e, mat2SO3Batch detK true rtol atol Rs = .error e) ↔
+      ∃ R ∈ Rs, ∃ e, mat2SO3 detK true rtol atol R = .error e := by
+  constructor
+  · rintro ⟨e, he⟩
+    by_contra hc
+    have hall : ∀ R ∈ Rs, mat2SO3 detK true rtol atol R = .ok (mat2SO3Raw atol R) := by
+      intro R hR
+      by_contra hne
+      apply hc
+      refine ⟨R, hR, ?_⟩
+      rcases hm : mat2SO3 detK true rtol atol R with e' | q
+      · exact ⟨e', rfl⟩
+      · exfalso; apply hne; rw [hm]
+        have := (mat2SO3_ok_iff detK rtol atol R q).mp hm
+        rw [this.2.2]
+    rw [(mat2SO3Batch_itemwise detK true rtol atol Rs).mpr hall] at he
+    exact absurd he (by simp)
+  · rintro ⟨R, hR, e, he⟩
+    apply mat2SO3Batch_error_of_bad detK rtol atol Rs
+    refine ⟨R, hR, ?_⟩
+    by_contra hc
+    have h1 : orthOk rtol atol R = true := by
+      by_contra h; exact hc (Or.inl (by simpa using h))
+    have h2 : detOk rtol atol (detK R) = true := by
+      by_contra h; exact hc (Or.inr (by simpa using h))
+    have := (mat2SO3_ok_iff detK rtol atol R _).mpr ⟨h1, h2, rfl⟩
+    rw [this] at he; exact absurd he (by simp)
+
+/-- **batched = item-wise** for the scaled conversions: with positive determinants and no item's scale inside the
+rank-test tolerance, a batch is accepted iff each of its items is accepted when converted alone, with the same values -/
+theorem scaledRotBatch_itemwise (detK : Mat3 ℝ → ℝ) (rtol atol : ℝ) (Rs : List (Mat3 ℝ))
+    (hpos : ∀ R ∈ Rs, 0 < detK R) (hnt : ∀ R ∈ Rs, scaleTiny rtol atol (powThird (detK R)) = false) :
+    scaledRotBatch detK true rtol atol Rs
+        = .ok (Rs.map fun R => (mat2SO3Raw atol (Mat3.divS R (cbrtOf (detK R))), cbrtOf (detK R))) ↔
+      ∀ R ∈ Rs, scaledRotBatch detK true rtol atol [R]
+        = .ok [(mat2SO3Raw atol (Mat3.divS R (cbrtOf (detK R))), cbrtOf (detK R))] := by
+  have hrank : rankTestFails rtol atol (Rs.map fun R => powThird (detK R)) = false := by
+    unfold rankTestFails
+    cases Rs with
+    | nil => simp
+    | cons R rest =>
+      have := hnt R (by simp)
+      simp [this]
+  rw [scaled_check_iff detK rtol atol Rs hpos hrank]
+  constructor
+  · intro h R hR
+    have h1 : rankTestFails rtol atol ([R].map fun R => powThird (detK R)) = false := by
+      simp [rankTestFails, hnt R hR]
+    have := (scaled_check_iff detK rtol atol [R] (by intro Q hQ; rw [List.mem_singleton.mp hQ]; exact hpos R hR) h1).mpr
+      (by intro Q hQ; rw [List.mem_singleton.mp hQ]; exact h R hR)
+    simpa using this
+  · intro h R hR
+    have h1 : rankTestFails rtol atol ([R].map fun R => powThird (detK R)) = false := by
+      simp [rankTestFails, hnt R hR]
+    have := (scaled_check_iff detK rtol atol [R] (by intro Q hQ; rw [List.mem_singleton.mp hQ]; exact hpos R hR) h1).mp
+      (by simpa using h R hR)
+    exact this R (by simp)
+
+
 /-! ### non-vacuity: the hypotheses are satisfiable by non-trivial values -/
 
 /-- rotation by exactly π about the x axis (`w = 0`): region 0, recovered exactly -/
